@@ -70,8 +70,18 @@ def install_poison_division(ex):
             return NAN
         elif b == 1:
             return a
+        # the same syntactic quotient on the same path is the same real (functional consistency, hash-consed)
+        za = px._z(a)
+        key = (za.get_id(), zb.get_id(), len(ex.trail))
+        cache = getattr(ex, '_c06_quot', None)
+        if cache is None or cache[0] is not ex.trail:
+            cache = ex._c06_quot = (ex.trail, {})
+        for (ia, ib, _k), q in cache[1].items():
+            if ia == za.get_id() and ib == zb.get_id():
+                return SymReal(q)
         q = z3.Real('px_' + ex._name('quot'))
-        ex.pc.append(q * zb == px._z(a))
+        ex.pc.append(q * zb == za)
+        cache[1][key] = q
         return SymReal(q)
     ex.divide = divide
 
@@ -102,14 +112,19 @@ def fdiv(a, b):
         return NAN if (a == 0 or a != a) else math.copysign(float('inf'), a) * math.copysign(1.0, b)
 
 
-def load_es(**kw):
+def load_es(ex=None, **kw):
+    if ex is not None:
+        kw.setdefault('shims', {})['optimism.JaxConfig'] = px.jaxconfig_shim(extra={'np': _NPRec(ex)})
     return px.load_module(REL, **kw)
 
 
-def load_sub():
-    es = load_es()
+def load_sub(ex=None):
+    es = load_es(ex)
     tre = types.SimpleNamespace(solve=None)
-    return px.load_module(REL_SUB, shims={'optimism.EquationSolver': es, 'optimism.treigen.treigen': tre}), es
+    shims = {'optimism.EquationSolver': es, 'optimism.treigen.treigen': tre}
+    if ex is not None:
+        shims['optimism.JaxConfig'] = px.jaxconfig_shim(extra={'np': _NPRec(ex)})
+    return px.load_module(REL_SUB, shims=shims), es
 
 
 class SymOp:
@@ -240,7 +255,7 @@ def kernel_goals_component(ex, out, z, d, tr, ip):
 
 def make_kernel_component(rel, fname, n):
     def fn(ex):
-        mod = load_es() if rel == REL else load_sub()[0]
+        mod = load_es(ex) if rel == REL else load_sub(ex)[0]
         z, d, tr = ex.vec('z', n), ex.vec('d', n), ex.real('trSize')
         ex.assume(tr > 0)
         if fname == 'preconditioned_project_to_boundary':
@@ -264,7 +279,7 @@ def make_kernel_component(rel, fname, n):
 
 def make_kernel_gram(rel, fname):
     def fn(ex):
-        mod = load_es() if rel == REL else load_sub()[0]
+        mod = load_es(ex) if rel == REL else load_sub(ex)[0]
         z, d, tr = ex.gram_base('z'), ex.gram_base('d'), ex.real('trSize')
         ex.assume(tr > 0)
         if fname == 'preconditioned_project_to_boundary':
@@ -530,7 +545,7 @@ def make_cg_moment(K, routine, ratio_symbolic, precond_ip=False):
     def fn(ex):
         install_poison_division(ex)
         mu = install_moments(ex)
-        mod = load_es() if routine == 'solve_trust_region_minimization' else load_sub()[0]
+        mod = load_es(ex) if routine == 'solve_trust_region_minimization' else load_sub(ex)[0]
         g, x = GV({0: 1.0}), GV({})
         hv = lambda v: GV({k + 1: c for k, c in v.c.items()})
         tr = F(ex, ex.real('trSize'))
@@ -560,7 +575,7 @@ def make_cg_component(n, K, precond_ip, precond_kind, routine='solve_trust_regio
     """explicit vectors; H symmetric symbolic; preconditioner = inverse of a positive diagonal matrix M (n=1: any SPD preconditioner)"""
     def fn(ex):
         install_poison_division(ex)
-        mod = load_es() if routine == 'solve_trust_region_minimization' else load_sub()[0]
+        mod = load_es(ex) if routine == 'solve_trust_region_minimization' else load_sub(ex)[0]
         g = ex.vec('g', n)
         Hm = ex.mat('H', n, n, symmetric=True)
         hv = lambda v: NP.dot(Hm, v)
@@ -666,15 +681,20 @@ _reg_cg_component(2, 1, False, 'identity', 'trust_region_cg', ('quick', 'thoroug
 class _NPRec:
     """px.NP plus a record of which numpy functions the code under test called (used to tell the exits of treigen.solve apart)"""
 
-    def __init__(self):
+    def __init__(self, ex=None, sqrt_goal=lambda: 'sqrt_defined'):
         self.called = set()
+        self.ex, self.sqrt_goal = ex, sqrt_goal
 
     def sign(self, x):
         self.called.add('sign')
         return NP.sign(x)
 
     def sqrt(self, x):
-        r = NP.sqrt(x)
+        if self.ex is not None and not self.ex.symbolic and onp.ndim(x) == 0:
+            # replay: the definedness goal of the symbolic run (recorded there by the explorer) at the same site
+            self.ex.goal(self.sqrt_goal(), Holds(bool(float(x) >= 0)), info='negative radicand')
+        with onp.errstate(all='ignore'):
+            r = NP.sqrt(x)
         self.last_sqrt = (x, r)
         return r
 
@@ -689,12 +709,14 @@ class _NPRec:
         return getattr(NP, name)
 
 
-def load_treigen(ex, eigh):
-    rec = _NPRec()
+def load_treigen(ex, eigh, sqrt_goal=lambda: 'sqrt_defined', on_norm=None):
+    rec = _NPRec(ex, sqrt_goal)
 
     def norm(w):
         r = NP.linalg.norm(w)
         rec.last_norm = (w, r)
+        if on_norm is not None:
+            on_norm(w, r)
         return r
     lin = types.SimpleNamespace(norm=norm, eigh=eigh)
     mod = px.load_module(REL_TREIGEN, shims={'optimism.JaxConfig': px.jaxconfig_shim(extra={'np': rec}), 'jax.numpy.linalg': lin})
@@ -800,8 +822,16 @@ def clean_goal(ex, name, atom, assumptions, info=None):
     if not ex.symbolic:
         add_goal(ex, name, atom, info=info)
         return
+    small = [c.z if isinstance(c, SymBool) else c for c in assumptions if not isinstance(c, (bool, onp.bool_))]
+    if not px._concrete_atom(atom):
+        # a counterexample of the reduced query need not extend to a model of the whole path (it could not be replayed): if the
+        # reduced query is not unsat, the goal is recorded with the whole path condition instead
+        st = sym.solve(small + [atom.neg(0)], 20)[0]
+        if st != 'unsat':
+            add_goal(ex, name, atom, info=info)
+            return
     saved = ex.pc
-    ex.pc = [c.z if isinstance(c, SymBool) else c for c in assumptions if not isinstance(c, (bool, onp.bool_))]
+    ex.pc = small
     try:
         add_goal(ex, name, atom, info=info)
     finally:
@@ -902,7 +932,12 @@ def make_treigen(zero_matrix=False, max_secular_iters=0, rotation=None, reflect=
         else:
             def eigh(M):
                 return real_eigh_aligned(M, v)
-        mod, rec = load_treigen(ex, eigh)
+        def on_norm(w, r):
+            # lemma (contract of eigh only): the orthogonal eigenvector matrix preserves the norm of the vector whose norm the code just took
+            if ex.symbolic and px._has_sym(w) and all_finite(w):
+                vw = NP.dot(v, w)
+                cut(ex, 'eigenvector_matrix_preserves_norm', Eq(U(NP.dot(vw, vw)), U(NP.dot(w, w))))
+        mod, rec = load_treigen(ex, eigh, on_norm=on_norm)
         iters = [0]
         last = {}
         q_orig, p_orig = mod.qnorm_squared, mod.pnorm_squared
@@ -1125,10 +1160,10 @@ def make_secular(kind):
 
         def eigh(M):
             return (sig.copy(), v.copy()) if ex.symbolic else real_eigh_aligned(M, v)
-        mod, rec = load_treigen(ex, eigh)
+        in_loop = [False]
+        mod, rec = load_treigen(ex, eigh, lambda: 'sqrt_defined[loop]' if in_loop[0] else 'sqrt_defined')
         step_fn, src, names = px.extract_step(mod, 'solve', select_after_secular_loop if kind == 'exit' else select_secular_loop)
         heads = []
-        in_loop = [False]
         install_sqrt(ex, lambda: _loop_var if in_loop[0] else None)
 
         def havoc(loc):
@@ -1229,3 +1264,11 @@ def _reg_secular(kind, doc):
 _reg_secular('base', 'the real statements of treigen.solve before the secular loop establish the loop invariant (lam >= 0, lam > -sig0, |p(lam)| >= Delta)')
 _reg_secular('step', 'one pass of the real loop body from any state satisfying the invariant and the loop test re-establishes the invariant (Newton on the secular equation does not overshoot)')
 _reg_secular('exit', 'from any state satisfying the invariant and the negated loop test the real return statement yields a certified global minimiser (norm within 1e-9 of the radius)')
+
+
+@obligation(P, 'O4.treigen_interior_and_secular_exits[symbolic eigenbasis; one loop pass]', tiers=('thorough',), cap=1800)
+def o4_int_sec_1(h):
+    """cross-check of the induction: the whole real solve with the secular loop unrolled to at most one pass (no invariant involved)"""
+    _treigen_meta(h)
+    h.bounds('treigen.solve n=2, symbolic eigenbasis, spectrum, b, Delta: paths with at most ONE pass of the secular loop (deeper paths cut)')
+    px.run_px(h, 'treigen', make_treigen(tags=('secular',), max_secular_iters=1), cap=120, sqrt_mode='goal')
